@@ -439,6 +439,10 @@ func (s *c04State) exec(w []string) string {
 	if w[0] == "mergewit" {
 		return c04MergeWit(w[1:])
 	}
+	if w[0] == "sst" {
+		res, _ := c04SST(w[1:])
+		return res
+	}
 	if w[0] == "sheet" {
 		d, ok := c04ParseDesc(w[1:])
 		if !ok {
@@ -937,7 +941,7 @@ func c04IterOracle(s *c04State, g, gc [][]string, sfx string) {
 type c04Builder func() *xl.File
 
 // recipe builds the same workbook every time it is called
-func c04APIRecipe(sub uint64) (c04Builder, string) {
+func c04APIRecipe(sub uint64) (c04Builder, string, func(*xl.File)) {
 	rng := NewRng(sub)
 	type opT struct {
 		kind  string
@@ -966,7 +970,7 @@ func c04APIRecipe(sub uint64) (c04Builder, string) {
 		}
 		cell := c04Name(c, ro)
 		o := opT{sheet: sh, cell: cell}
-		switch k := rng.Intn(16); {
+		switch k := rng.Intn(20); {
 		case k < 4:
 			o.kind, o.sval = "str", rng.Pick(strs)
 		case k < 7:
@@ -1006,8 +1010,16 @@ func c04APIRecipe(sub uint64) (c04Builder, string) {
 			o.kind, o.ival, o.fval = "rowheight", ro, float64(rng.Range(5, 60))
 		case k < 15:
 			o.kind, o.sval = "default", rng.Pick([]string{"1.0000000000000002", "1E3", "0x10", "00012", "1e+21", "12345678901234567890", "Inf", "0.30000000000000004"})
-		default:
+		case k < 16:
 			o.kind, o.sval = "link", "https://example.com/" + strconv.Itoa(i)
+		case k < 18:
+			// rich text: a shared string item made of runs (follows plain items in the table)
+			o.kind, o.sval = "rich", rng.Pick([]string{"rich", "needle", "R1", "a"})
+		case k < 19:
+			// shared formula: master cell with Ref, dependent cells below it
+			o.kind, o.cell2, o.sval = "shared", c04Name(c, ro+rng.Range(1, 3)), rng.Pick([]string{"A1+1", "$A$1*B2", "SUM(A1:B1)"})
+		default:
+			o.kind, o.sval = "str", "plain" + strconv.Itoa(i)
 		}
 		ops = append(ops, o)
 		desc = append(desc, fmt.Sprintf("%s %s!%s %s%s %v %d", o.kind, o.sheet, o.cell, o.cell2, o.sval, o.fval, o.ival))
@@ -1050,16 +1062,46 @@ func c04APIRecipe(sub uint64) (c04Builder, string) {
 				f.SetCellDefault(o.sheet, o.cell, o.sval)
 			case "link":
 				f.SetCellHyperLink(o.sheet, o.cell, o.sval, "External")
+			case "rich":
+				f.SetCellRichText(o.sheet, o.cell, []xl.RichTextRun{{Text: o.sval, Font: &xl.Font{Bold: true}}, {Text: "-run"}})
+			case "shared":
+				t, ref := xl.STCellFormulaTypeShared, o.cell+":"+o.cell2
+				f.SetCellFormula(o.sheet, o.cell, o.sval, xl.FormulaOpts{Type: &t, Ref: &ref})
 			}
 		}
 		return f
 	}
-	return build, strings.Join(desc, "; ")
+	c04Hot = nil
+	for _, o := range ops {
+		switch o.kind {
+		case "rich":
+			c04Hot = append(c04Hot, o.sheet+"!"+o.cell)
+		case "shared":
+			c1, r1, _ := xl.CellNameToCoordinates(o.cell)
+			_, r2, _ := xl.CellNameToCoordinates(o.cell2)
+			for ro := r1; ro <= r2; ro++ {
+				c04Hot = append(c04Hot, o.sheet+"!"+c04Name(c1, ro))
+			}
+		}
+	}
+	// writes applied to both twins after the read batch: a read must not influence what a
+	// later write followed by a read shows (shared formulas are redefined on their ranges)
+	rewrite := func(f *xl.File) {
+		for _, o := range ops {
+			if o.kind == "shared" {
+				t, ref := xl.STCellFormulaTypeShared, o.cell+":"+o.cell2
+				f.SetCellFormula(o.sheet, o.cell, o.sval+"+7", xl.FormulaOpts{Type: &t, Ref: &ref})
+			}
+		}
+		f.SetCellValue("Sheet1", "H1", "w")
+	}
+	return build, strings.Join(desc, "; "), rewrite
 }
 
 // hand-written worksheet parts opened from bytes (missing r, gaps, styled-empty cells,
 // formulas without cached values, merged ranges with values in covered cells, numerics)
 func c04XMLRecipe(sub uint64) (c04Builder, string) {
+	c04Hot = nil
 	rng := NewRng(sub)
 	d := c04GenDesc(rng, true)
 	for !d.r0consistent() { // the rless-mixed shape is a known finding, reproduced by the xml cases
@@ -1117,12 +1159,22 @@ func c04Deref(v interface{}) interface{} {
 var c04RawOpt = xl.Options{RawCellValue: true}
 
 // one random read-only call with valid or invalid arguments
+// c04Hot: cells the current recipe wrote special content to (dependents of shared formulas,
+// rich text), as sheet!cell; the read batch visits them with the cell getters
+var c04Hot []string
+
 func c04RandomRead(rng *Rng, sheets []string) c04Read {
 	sheet := sheets[rng.Intn(len(sheets))]
 	if rng.Chance(12) {
 		sheet = rng.Pick([]string{"SheetN", "Sheet:1", "", "sheet1", strings.Repeat("x", 40)})
 	}
 	cell := c04Name(rng.Range(1, 9), rng.Range(1, 11))
+	if len(c04Hot) > 0 && rng.Chance(35) {
+		h := strings.SplitN(rng.Pick(c04Hot), "!", 2)
+		sheet, cell = h[0], h[1]
+		k := rng.Pick2([]int{0, 4, 20, 20, 20, 24, 26, 26})
+		return c04ReadKind(rng, k, sheet, cell)
+	}
 	if rng.Chance(25) {
 		cell = rng.Pick([]string{"A1000", "AB300", "AZ1", "A600", "A0", "", "XFE1", "A1048577", "a1", "$B$2", "B02", "1A", "A-1", "A1:B2", "é1"})
 	}
@@ -1379,8 +1431,15 @@ func c04Saved(f *xl.File) []string {
 				rc.Close()
 				out = append(out, e.Name+" = "+string(b))
 			}
+			if strings.HasPrefix(e.Name, "xl/worksheets/sheet") && strings.HasSuffix(e.Name, ".xml") {
+				rc, _ := e.Open()
+				b, _ := io.ReadAll(rc)
+				rc.Close()
+				out = append(out, e.Name+" cells = "+c04DecodeSheet(b))
+			}
 		}
 	}
+	sort.Strings(out) // the order of the parts in the package is not fixed (temporary-file parts)
 	for _, sh := range g.GetSheetList() {
 		d, err := xl.VerifC04Dump(g, sh)
 		out = append(out, sh+" = "+c04Fmt(c04Content(d), err))
@@ -1393,11 +1452,11 @@ func c04FirstDiff(a, b []string) string {
 	for i := 0; i < len(a) && i < len(b); i++ {
 		if a[i] != b[i] {
 			x, y := a[i], b[i]
-			if len(x) > 300 {
-				x = x[:300]
+			if len(x) > 6000 {
+				x = x[:6000]
 			}
-			if len(y) > 300 {
-				y = y[:300]
+			if len(y) > 6000 {
+				y = y[:6000]
 			}
 			return fmt.Sprintf("without reads: %s / after reads: %s", x, y)
 		}
@@ -1424,11 +1483,30 @@ func c04Culprit(build c04Builder, batch []c04Read, ref []string, obs func(*xl.Fi
 }
 
 func c04BatchCase(r *Run, kind string, sub uint64) {
-	var build c04Builder
+	var build, buildMem c04Builder
 	var what string
-	if kind == "api" {
-		build, what = c04APIRecipe(sub)
-	} else {
+	var rewrite func(*xl.File)
+	switch kind {
+	case "api":
+		build, what, rewrite = c04APIRecipe(sub)
+	case "spill":
+		// the saved bytes of an API-built workbook, opened with every XML part above 64 bytes
+		// (worksheets, shared strings) extracted to temporary files, and opened in memory
+		var b0 c04Builder
+		b0, what, rewrite = c04APIRecipe(sub)
+		f0 := b0()
+		buf, err := f0.WriteToBuffer()
+		f0.Close()
+		must(err)
+		pkg := buf.Bytes()
+		build = func() *xl.File {
+			f, err := xl.OpenReader(bytes.NewReader(pkg), xl.Options{UnzipXMLSizeLimit: 64})
+			must(err)
+			return f
+		}
+		buildMem = func() *xl.File { return c04Open(pkg) }
+		what = "spilled open (UnzipXMLSizeLimit 64) of: " + what
+	default:
 		build, what = c04XMLRecipe(sub)
 	}
 	replay := fmt.Sprintf("case %s %d", kind, sub)
@@ -1476,6 +1554,32 @@ func c04BatchCase(r *Run, kind string, sub uint64) {
 		cul := c04Culprit(build, batch, obsA, c04Obs)
 		r.Fail("purity:obs:"+cul, fmt.Sprintf("observation differs after read-only calls [%s]: %s; state: %s", strings.Join(names, ", "), c04FirstDiff(obsA, obsB), what), 0, replay)
 	}
+	if buildMem != nil {
+		fm := buildMem()
+		obsM := c04Obs(fm)
+		fm.Close()
+		if !reflect.DeepEqual(obsA, obsM) {
+			r.Fail("agree:spill-vs-memory", fmt.Sprintf("the same package read with its XML parts in temporary files and in memory: %s; state: %s", c04FirstDiff(obsM, obsA), what), 0, replay)
+		}
+	}
+	if rewrite != nil {
+		// reads, then writes, then observation: against writes + observation alone
+		fw := build()
+		rewrite(fw)
+		obsWA := c04Obs(fw)
+		fw.Close()
+		fw = build()
+		for _, rd := range batch {
+			c04Call(func() string { return rd.fn(fw) })
+		}
+		rewrite(fw)
+		obsWB := c04Obs(fw)
+		fw.Close()
+		if !reflect.DeepEqual(obsWA, obsWB) {
+			cul := c04Culprit(build, batch, obsWA, func(f *xl.File) []string { rewrite(f); return c04Obs(f) })
+			r.Fail("purity:obs-after-write:"+cul, fmt.Sprintf("after the same writes the observation differs when read-only calls [%s] ran before them: %s; state: %s", strings.Join(names, ", "), c04FirstDiff(obsWA, obsWB), what), 0, replay)
+		}
+	}
 	fa2 := build()
 	savA := c04Saved(fa2)
 	fa2.Close()
@@ -1489,6 +1593,10 @@ func c04BatchCase(r *Run, kind string, sub uint64) {
 		// only difference: the shared-strings part (and its relationship / content type) that
 		// the first value read adds to a workbook opened without one (known finding)
 		r.Fail("purity:saved:sst-part-created", "a save after read-only calls contains xl/sharedStrings.xml, a save without them does not; state: "+what, 0, replay)
+	} else if !reflect.DeepEqual(savA, savB) && c04OnlyHiddenLost(c04NoSST(savA), c04NoSST(savB)) {
+		// known finding: caching a sheet drops the attributes of rows without r (checkSheet copies
+		// only their cells into the row slots), so the hidden flag is missing from a later save
+		r.Fail("purity:saved:rless-row-attrs-lost", "a row without r attribute is hidden in the file; a save after read-only calls no longer hides it: "+c04FirstDiff(savA, savB)+"; state: "+what, 0, replay)
 	} else if !reflect.DeepEqual(savA, savB) {
 		cul := c04Culprit(build, batch, c04NoSST(savA), func(f *xl.File) []string { return c04NoSST(c04Saved(f)) })
 		r.Fail("purity:saved:"+cul, fmt.Sprintf("saved content differs after read-only calls [%s]: %s; state: %s", strings.Join(names, ", "), c04FirstDiff(savA, savB), what), 0, replay)
@@ -1721,6 +1829,51 @@ func c04Witness(r *Run, name string) {
 		f.SetCellValue("Sheet1", "C3", "x5")
 		g, _ := f.GetRows("Sheet1")
 		c04SearchVsRows(r, f, "Sheet1", g, replay, fmt.Sprintf("A1=5 as \"x\"0, B2=36526 as date, C3=\"x5\"; GetRows %q", g))
+	case "rless-hidden": // open finding: caching drops the attributes of a row without r
+		x := c04Hdr + `<row><c t="str"><v>a</v></c></row><row hidden="1"><c t="str"><v>b</v></c></row>` + c04Ftr
+		pkg := c04Package(x)
+		a := c04Open(pkg)
+		sa := c04DecodeSheet([]byte(c04PartOfSave(a, "xl/worksheets/sheet1.xml")))
+		rows, _ := a.Rows("Sheet1")
+		hiddenBefore := false
+		for i := 0; rows != nil && rows.Next(); i++ {
+			if i == 1 {
+				hiddenBefore = rows.GetRowOpts().Hidden
+			}
+		}
+		a.Close()
+		b := c04Open(pkg)
+		vis, _ := b.GetRowVisible("Sheet1", 2)
+		sb := c04DecodeSheet([]byte(c04PartOfSave(b, "xl/worksheets/sheet1.xml")))
+		b.Close()
+		if sa != sb || (hiddenBefore && vis) {
+			r.Fail("purity:saved:rless-row-attrs-lost", fmt.Sprintf("<row hidden=\"1\"> without r: Rows().GetRowOpts().Hidden=%v on the file, GetRowVisible(2)=%v after caching; saved %q vs %q", hiddenBefore, vis, sa, sb), 0, replay)
+		}
+	case "shared-formula-read": // GetCellFormula of a dependent cell must not store the expanded text
+		mk := func() *xl.File {
+			f := xl.NewFile()
+			t, ref := xl.STCellFormulaTypeShared, "B1:B3"
+			f.SetCellFormula("Sheet1", "B1", "A1*2", xl.FormulaOpts{Type: &t, Ref: &ref})
+			return f
+		}
+		a, b := mk(), mk()
+		f1, _ := b.GetCellFormula("Sheet1", "B2")
+		sa := c04DecodeSheet([]byte(c04PartOfSave(a, "xl/worksheets/sheet1.xml")))
+		sb := c04DecodeSheet([]byte(c04PartOfSave(b, "xl/worksheets/sheet1.xml")))
+		if sa != sb {
+			r.Fail("purity:saved:GetCellFormula", fmt.Sprintf("shared formula B1:B3: after GetCellFormula(B2)=%q the saved worksheet differs: %q vs %q", f1, sa, sb), 0, replay)
+		}
+		// redefine the shared formula on both, read the dependent again
+		t, ref := xl.STCellFormulaTypeShared, "B1:B3"
+		a.SetCellFormula("Sheet1", "B1", "A1*3", xl.FormulaOpts{Type: &t, Ref: &ref})
+		b.SetCellFormula("Sheet1", "B1", "A1*3", xl.FormulaOpts{Type: &t, Ref: &ref})
+		fa, _ := a.GetCellFormula("Sheet1", "B2")
+		fb, _ := b.GetCellFormula("Sheet1", "B2")
+		a.Close()
+		b.Close()
+		if fa != fb {
+			r.Fail("purity:obs-after-write:GetCellFormula", fmt.Sprintf("shared formula redefined as A1*3: GetCellFormula(B2)=%q on the twin that never read it, %q on the twin that had read it before", fa, fb), 0, replay)
+		}
 	case "search-panic":
 		f := xl.NewFile()
 		defer f.Close()
@@ -1757,7 +1910,7 @@ func runC04(r *Run, rng *Rng, replay string) {
 	// coverage of the getter list
 	r.Notes = append(r.Notes, fmt.Sprintf("read batch draws from %d exported read functions", len(c04Covered)))
 	// 0. witnesses (deterministic)
-	for _, w := range []string{"raw-rewrite", "materialise", "search-panic", "basecolor", "search-formatted", "condstyle-write", "sst-created", "rows-limit"} {
+	for _, w := range []string{"raw-rewrite", "materialise", "search-panic", "basecolor", "search-formatted", "shared-formula-read", "rless-hidden", "condstyle-write", "sst-created", "rows-limit"} {
 		c04Witness(r, w)
 	}
 	for _, k := range []string{"rless-mixed", "missing-r-search"} {
@@ -1792,13 +1945,19 @@ func runC04(r *Run, rng *Rng, replay string) {
 		nm = 3000
 	}
 	c04MergeCases(r, NewRng(c04Sub(r.Seed, "merge", 0)), nm)
+	// 2c. shared strings served from a temporary file (model: spillStrings)
+	ns := 60
+	if thorough {
+		ns = 1500
+	}
+	c04SSTCases(r, NewRng(c04Sub(r.Seed, "sst", 0)), ns)
 	// 3. malformed op lines (driver and harness must both answer bad-op)
 	s := &c04State{r: r}
 	for _, l := range []string{"sheet ROW 1 0 C 1 1 0 61", "get 0 1", "get 1 0", "get 16385 1", "get 1 1048577", "style 16385 1", "style 1 1048577", "style 0 0", "vis 0", "vis 1048577", "rows"} {
 		s.op(l)
 		r.Stat("out-of-grid-op")
 	}
-	for _, l := range []string{"sheet ROW", "sheet ROW 1 0 C 1 1", "sheet ROW x 0", "sheet C 1 1 0 61", "rows 1", "get 1", "get a b", "search zz", "search 6", "vis", "frob", "sheet ROW 1 0 C 1 1 0 6", "style 1", "spec", "cols x"} {
+	for _, l := range []string{"sheet ROW", "sheet ROW 1 0 C 1 1", "sheet ROW x 0", "sheet C 1 1 0 61", "rows 1", "get 1", "get a b", "search zz", "search 6", "vis", "frob", "sheet ROW 1 0 C 1 1 0 6", "sst", "sst q:61", "sst p:6", "sst r:61", "style 1", "spec", "cols x"} {
 		s.op(l)
 		r.Stat("malformed-op")
 	}
@@ -1807,6 +1966,9 @@ func runC04(r *Run, rng *Rng, replay string) {
 		kind := "api"
 		if i%3 == 2 {
 			kind = "xmlbatch"
+		}
+		if i%6 == 4 {
+			kind = "spill"
 		}
 		c04BatchCase(r, kind, c04Sub(r.Seed, kind, i))
 		r.Stat("batchcase:" + kind)
@@ -1859,9 +2021,18 @@ func c04Replay(r *Run, path string) {
 				} else {
 					c04Witness(r, w[2])
 				}
-			case "api", "xmlbatch":
+			case "api", "xmlbatch", "spill":
 				sub, _ := strconv.ParseUint(w[2], 10, 64)
 				c04BatchCase(r, w[1], sub)
+			}
+			continue
+		}
+		if w[0] == "sst" {
+			ln, _ := s.op(line)
+			_, bad := c04SST(w[1:])
+			for _, b := range bad {
+				p := strings.SplitN(b, "|", 2)
+				r.Fail(p[0], p[1]+" :: "+line, ln, line)
 			}
 			continue
 		}
@@ -2062,6 +2233,267 @@ func c04MergeCases(r *Run, rng *Rng, n int) {
 		line := fmt.Sprintf("mergewit %d %d", c, ro)
 		for _, q := range rects {
 			line += fmt.Sprintf(" %d %d %d %d", q[0], q[1], q[2], q[3])
+		}
+		run(line)
+	}
+}
+
+// decodeSheet: the content of a saved worksheet part, independent of how it was serialised
+// (a part passed through unread vs a re-marshalled one): every cell that carries a value,
+// formula, inline string or style at its effective position with type, style, stored text,
+// formula attributes and formula text; hidden rows; merged ranges.
+type c04xF struct {
+	T       string `xml:"t,attr"`
+	Ref     string `xml:"ref,attr"`
+	Si      string `xml:"si,attr"`
+	Content string `xml:",chardata"`
+}
+type c04xIS struct {
+	T *string `xml:"t"`
+	R []struct {
+		T string `xml:"t"`
+	} `xml:"r"`
+}
+type c04xC struct {
+	R  string  `xml:"r,attr"`
+	T  string  `xml:"t,attr"`
+	S  string  `xml:"s,attr"`
+	V  *string `xml:"v"`
+	F  *c04xF  `xml:"f"`
+	IS *c04xIS `xml:"is"`
+}
+type c04xRow struct {
+	R      int     `xml:"r,attr"`
+	Hidden string  `xml:"hidden,attr"`
+	C      []c04xC `xml:"c"`
+}
+type c04xWS struct {
+	Rows   []c04xRow `xml:"sheetData>row"`
+	Merges []struct {
+		Ref string `xml:"ref,attr"`
+	} `xml:"mergeCells>mergeCell"`
+}
+
+func c04DecodeSheet(b []byte) string {
+	var ws c04xWS
+	if err := xml.Unmarshal(b, &ws); err != nil {
+		return "decode ERR"
+	}
+	var out []string
+	cur := 0
+	for _, row := range ws.Rows {
+		if row.R != 0 {
+			cur = row.R
+		} else {
+			cur++
+		}
+		if row.Hidden == "1" || row.Hidden == "true" {
+			out = append(out, fmt.Sprintf("row%d:hidden", cur))
+		}
+		cc := 0
+		for _, c := range row.C {
+			cc++
+			if c.R != "" {
+				if col, _, err := xl.CellNameToCoordinates(c.R); err == nil {
+					cc = col
+				}
+			}
+			if c.V == nil && c.F == nil && c.IS == nil && (c.S == "" || c.S == "0") {
+				continue
+			}
+			e := fmt.Sprintf("%s:t=%s:s=%s", c04Name(cc, cur), c.T, strings.TrimPrefix(c.S, "0"))
+			if c.V != nil {
+				e += ":v=" + hx(*c.V)
+			}
+			if c.F != nil {
+				e += fmt.Sprintf(":f=%s/%s/%s/%s", c.F.T, c.F.Ref, c.F.Si, hx(c.F.Content))
+			}
+			if c.IS != nil {
+				t := ""
+				if c.IS.T != nil {
+					t = *c.IS.T
+				}
+				for _, run := range c.IS.R {
+					t += run.T
+				}
+				e += ":is=" + hx(t)
+			}
+			out = append(out, e)
+		}
+	}
+	for _, m := range ws.Merges {
+		out = append(out, "merge:"+m.Ref)
+	}
+	return strings.Join(out, " ")
+}
+
+// onlyHiddenLost: the two saved contents differ only by `rowN:hidden` tokens present in a and
+// missing in b
+func c04OnlyHiddenLost(a, b []string) bool {
+	if len(a) != len(b) {
+		return false
+	}
+	lost := false
+	for i := range a {
+		if a[i] == b[i] {
+			continue
+		}
+		ta, tb := strings.Fields(a[i]), strings.Fields(b[i])
+		inB := map[string]bool{}
+		for _, t := range tb {
+			inB[t] = true
+		}
+		var rest []string
+		for _, t := range ta {
+			if !inB[t] && strings.HasPrefix(t, "row") && strings.HasSuffix(t, ":hidden") {
+				lost = true
+				continue
+			}
+			rest = append(rest, t)
+		}
+		if strings.Join(rest, " ") != strings.Join(tb, " ") {
+			return false
+		}
+	}
+	return lost
+}
+
+// the cell getters, for a given sheet and cell
+func c04ReadKind(rng *Rng, k int, sheet, cell string) c04Read {
+	switch k {
+	case 4:
+		return c04Read{fmt.Sprintf("GetCellValue(%q,%q,raw)", sheet, cell), func(f *xl.File) string { return c04Fmt(f.GetCellValue(sheet, cell, c04RawOpt)) }}
+	case 20:
+		return c04Read{fmt.Sprintf("GetCellFormula(%q,%q)", sheet, cell), func(f *xl.File) string { return c04Fmt(f.GetCellFormula(sheet, cell)) }}
+	case 24:
+		return c04Read{fmt.Sprintf("GetCellType(%q,%q)", sheet, cell), func(f *xl.File) string { return c04Fmt(f.GetCellType(sheet, cell)) }}
+	case 26:
+		return c04Read{fmt.Sprintf("GetCellRichText(%q,%q)", sheet, cell), func(f *xl.File) string { return c04Fmt(f.GetCellRichText(sheet, cell)) }}
+	}
+	return c04Read{fmt.Sprintf("GetCellValue(%q,%q)", sheet, cell), func(f *xl.File) string { return c04Fmt(f.GetCellValue(sheet, cell)) }}
+}
+
+// ---------------------------------------------------------------- shared strings from a temporary file
+
+var c04SSTTmpl []byte
+
+// sstPackage: a workbook whose shared string table holds the given items (`p:<hex>` plain,
+// `r:<hex>:<hex>` two runs) and whose first row refers to them in order
+func c04SSTPackage(items []string) ([]byte, bool) {
+	if c04SSTTmpl == nil {
+		f := xl.NewFile()
+		must(f.SetCellValue("Sheet1", "A1", "seed"))
+		buf, err := f.WriteToBuffer()
+		must(err)
+		f.Close()
+		c04SSTTmpl = buf.Bytes()
+	}
+	var sst, row strings.Builder
+	fmt.Fprintf(&sst, `<?xml version="1.0" encoding="UTF-8" standalone="yes"?>`+"\n"+`<sst xmlns="http://schemas.openxmlformats.org/spreadsheetml/2006/main" count="%d" uniqueCount="%d">`, len(items), len(items))
+	row.WriteString(`<row r="1">`)
+	for i, it := range items {
+		p := strings.Split(it, ":")
+		for _, h := range p[1:] {
+			if !c04IsHex(h) || h == "-" {
+				return nil, false
+			}
+		}
+		switch {
+		case len(p) == 2 && p[0] == "p":
+			sst.WriteString(`<si><t xml:space="preserve">` + c04Esc(unhx(p[1])) + `</t></si>`)
+		case len(p) == 3 && p[0] == "r":
+			sst.WriteString(`<si><r><t xml:space="preserve">` + c04Esc(unhx(p[1])) + `</t></r><r><rPr><b/></rPr><t xml:space="preserve">` + c04Esc(unhx(p[2])) + `</t></r></si>`)
+		default:
+			return nil, false
+		}
+		fmt.Fprintf(&row, `<c r="%s" t="s"><v>%d</v></c>`, c04Name(i+1, 1), i)
+	}
+	sst.WriteString(`</sst>`)
+	row.WriteString(`</row>`)
+	pkg := c04RewritePart(c04SSTTmpl, "xl/sharedStrings.xml", func([]byte) []byte { return []byte(sst.String()) })
+	pkg = c04RewritePart(pkg, "xl/worksheets/sheet1.xml", func([]byte) []byte { return []byte(c04Hdr + row.String() + c04Ftr) })
+	return pkg, true
+}
+
+func c04RowOf(f *xl.File) string {
+	g, err := f.GetRows("Sheet1")
+	if err != nil {
+		return "ERR"
+	}
+	if len(g) == 0 {
+		return "ok ~"
+	}
+	return strings.TrimPrefix(c04Grid(g[:1], nil), "")
+}
+
+// sst op: the first row as a workbook opened with its XML parts in temporary files shows it;
+// the second result is the list of oracle complaints (memory open, reads after GetCellRichText)
+func c04SST(items []string) (string, []string) {
+	if len(items) == 0 {
+		return "bad-op", nil
+	}
+	pkg, ok := c04SSTPackage(items)
+	if !ok {
+		return "bad-op", nil
+	}
+	spill, err := xl.OpenReader(bytes.NewReader(pkg), xl.Options{UnzipXMLSizeLimit: 64})
+	must(err)
+	defer spill.Close()
+	res := c04RowOf(spill)
+	var bad []string
+	mem := c04Open(pkg)
+	if m := c04RowOf(mem); m != res {
+		bad = append(bad, fmt.Sprintf("agree:spill-vs-memory|GetRows of the same package: parts in temporary files %s, in memory %s", res, m))
+	}
+	mem.Close()
+	for i := range items {
+		_, _ = spill.GetCellRichText("Sheet1", c04Name(i+1, 1))
+	}
+	if again := c04RowOf(spill); again != res {
+		bad = append(bad, fmt.Sprintf("purity:obs:GetCellRichText:spilled-strings|GetRows of a workbook with spilled shared strings %s, after GetCellRichText of its cells %s", res, again))
+	}
+	v, _ := spill.GetCellValue("Sheet1", c04Name(len(items), 1))
+	if g := c04CellOfRow(res, len(items)); g != hx(v) && !(g == "-" && v == "") {
+		bad = append(bad, fmt.Sprintf("agree:getrows-vs-getcellvalue|last cell: GetRows %s, GetCellValue %q", g, v))
+	}
+	return res, bad
+}
+
+func c04CellOfRow(res string, k int) string {
+	if !strings.HasPrefix(res, "ok ") {
+		return res
+	}
+	p := strings.Split(res[3:], ",")
+	if k-1 < len(p) {
+		return p[k-1]
+	}
+	return "-"
+}
+
+func c04SSTCases(r *Run, rng *Rng, n int) {
+	s := &c04State{r: r}
+	words := []string{"a", "bb", "needle", "x y", "R", "plain", "<&>", "é"}
+	run := func(line string) {
+		s.replay = nil
+		ln, _ := s.op(line)
+		r.Case(line, true)
+		r.Stat("sst")
+		_, bad := c04SST(strings.Fields(line)[1:])
+		for _, b := range bad {
+			p := strings.SplitN(b, "|", 2)
+			r.Fail(p[0], p[1]+" :: "+line, ln, line)
+		}
+	}
+	run("sst p:" + hx("plain") + " r:" + hx("ri") + ":" + hx("ch") + " p:" + hx("z")) // a rich item after a plain one
+	for i := 0; i < n; i++ {
+		k := rng.Range(1, 6)
+		line := "sst"
+		for j := 0; j < k; j++ {
+			if rng.Chance(45) {
+				line += " r:" + hx(rng.Pick(words)) + ":" + hx(rng.Pick(words))
+			} else {
+				line += " p:" + hx(rng.Pick(words))
+			}
 		}
 		run(line)
 	}
